@@ -1,6 +1,6 @@
 #!/bin/bash
-# run refquick over all refactorings in /tmp/refac and summarise
+# analysis-only replay of every stored behaviour-preserving refactoring (all 20 checks each); expected: no alarm
 rm -f /tmp/rq_*.log
-ls -d /tmp/refac/C*/_out/R* | xargs -P 8 -I{} sh -c '/verif/tools/refquick.sh {} > /tmp/rq_$(echo {} | tr "/" "_").log 2>&1'
+ls -d /verif/preserving/* | xargs -P 8 -I{} sh -c '/verif/tools/refquick.sh {} > /tmp/rq_$(basename {}).log 2>&1'
 cat /tmp/rq_*.log | grep "^==" | awk '{print $3}' | sort | uniq -c
 grep -L "alarms=0" /tmp/rq_*.log
